@@ -16,6 +16,15 @@ oracle : on EVERY p-box the real code returns (every intermediate of every histo
          exactly Params.steps entries, no NaN, both bounds non-decreasing, left <= right at every step,
          range/lo/hi/support == [left[0], right[-1]], mean inside the support, 0 <= var <= width^2/4, no
          placeholder; a second stream runs the REAL moment code (LP / ECDF fallback) in worker processes.
+round 3: every public entry point that returns a p-box is in both streams with small adversarial arguments (pba.ECDF on
+         two-point / balanced / single samples, KS_bounds on 1-3 values, from_percentiles with interval percentiles,
+         known_properties / known_constraints, DSS with one or separated focal elements, Distribution with list parameters,
+         stochastic_mixture, stacking of Interval objects mixed with lists and unequal weights, condensation, min/max,
+         pow by numbers and p-boxes); integer-dtype bounds (arrays and lists of ints); thin-but-not-degenerate and tiny
+         operands; constants 1e-20, 2^-60, 1e18; precise boxes far from the origin.  Aliasing: every returned p-box (and every
+         operand) is snapshotted and re-read after later calls (every 50 histories, at the end, inside the moment workers),
+         30 histories are evaluated twice, and a fixed sequence repeats calls whose arguments differ only in the masses /
+         in how the same numbers are bound.
 """
 from __future__ import annotations
 import math, operator, json, os, itertools, time
@@ -821,9 +830,9 @@ def moment_worker(item):
     # the value stays alive while unrelated p-boxes are built and dropped; it must still read the same
     snap = snapshot_safe(p)
     try:
-        for _ in range(2):
-            _tmp = -build_leaf(["normal", [[0.5, 1.5], [0.3, 0.4]]]) * 3
-            _tmp = build_leaf(["dss", [[[1, 3], [2, 4]], [0.3, 0.7]]]) if spec[0] == "L" else None
+        for k_ in range(3):       # cheap constructors that carry their own moments (no LP)
+            _tmp = [-build_leaf(["normal", [[0.5 + k_, 1.5 + k_], [0.3, 0.4]]]), build_leaf(["interval", [k_, k_ + 2]]),
+                    build_leaf(["min_max", [k_, k_ + 3]])]
             del _tmp
     except BaseException:  # noqa
         pass
@@ -855,7 +864,9 @@ def run(ctx: core.Check):
                 "add/sub/mul/div under f,p,o,i, bare operators, unknown dependency code, number operands on either side, negation, "
                 "reciprocal, exp/sqrt/log, envelope, imposition (modelled) and pow, min/max, sin/cos/tanh, condensation, DSS round "
                 "trip, numpy ufuncs (oracle only). Non-trivial = at least one operation node; distinct on the history. "
-                "(c) boxes whose moments come from the real LP / ECDF code.")
+                "(c) ~90 boxes whose moments come from the real LP / ECDF code or from the entry point itself (ECDF, KS, DSS, "
+                "known_properties, mixtures, condensation, min/max, pow, integer dtype, thin/tiny operands, extreme constants, "
+                "offsets up to 1e15). (d) a fixed call sequence and snapshot re-reads of all returned values (aliasing).")
     ctx.assumptions = [
         "binary64 rounding is not modelled: integer histories must agree exactly, others within 64*nodes ulp of the largest magnitude met",
         "exp/sqrt/log enter the model as value tables computed by the same numpy call (nearest-key lookup); theorems assume monotone",
